@@ -38,9 +38,22 @@ MUTANTS = [
  dict(id='c19-nextline-eats-one-more', prop='C19', file=NEXT, old='(byte_pos, line_break_pos)', new='(byte_pos, line_break_pos + 2)', what='NextLineBreakRemover removes one character too many'),
  dict(id='c19-child-merge-needs-both-ends', prop='C19', file=REMOVER, old='if marker.contains(&child_marker.start) || marker.contains(&child_marker.end) {', new='if marker.contains(&child_marker.start) && marker.contains(&child_marker.end) {',
       what='a ready child that only touches the wrapper part of an unwrap-block is no longer merged into it'),
- dict(id='c19-revert-F4', prop='C19', file='chiritori/src/element_parser.rs', old="""                            State::NameBegin => match current_char {
-                                ' ' | '\\n' => {}""", new="""                            State::NameBegin => match current_char {
-                                ' ' => {}""", what='F4 re-introduced (line break before an attribute name becomes part of the name)'),
+ dict(id='c19-revert-F6', prop='C19', file='chiritori/src/tokenizer.rs', old="""            None => Some(Token {
+                value: &source[byte_start_pos..],
+                kind: TokenKind::Text,
+                start: start_pos,
+                byte_start: byte_start_pos,
+                end: current,
+                byte_end: byte_pos + last_char.len_utf8(),""", new="""            None => Some(Token {
+                value: &source[byte_start_pos..],
+                kind: TokenKind::Text,
+                start: start_pos,
+                byte_start: byte_start_pos,
+                end: current,
+                byte_end: byte_pos + 1,""", what='F6 re-introduced (end offset of the last token inside a multi-byte character)'),
+ dict(id='c19-revert-F4-F5', prop='C19', file='chiritori/src/element_parser.rs', old="""                            State::NameBegin => match current_char {
+                                ' ' | '\\n' | '\\t' | '\\r' => {}""", new="""                            State::NameBegin => match current_char {
+                                ' ' => {}""", what='F4/F5 re-introduced (line break or tab before an attribute name becomes part of the name)'),
  dict(id='c19-verdict-cache-without-time', prop='C19', file=EV, old='''    fn is_removal(&self, start_el: &Element) -> bool {
         let expires_attr''', new='''    fn is_removal(&self, start_el: &Element) -> bool {
         thread_local! { static MEMO: std::cell::RefCell<std::collections::HashMap<String, bool>> = std::cell::RefCell::new(std::collections::HashMap::new()); }
@@ -183,11 +196,18 @@ if not only or 'known-findings-path' in only:
     f1_old = '    #[arg(long)]\n    removal_marker_target_name: Vec<String>,'
     f1_new = '    #[arg(long, default_value = "vec![]")]\n    removal_marker_target_name: Vec<String>,'
     open(path, 'w').write(orig.replace(f1_old, f1_new))
-    r = sh(f"VERIF_KNOWN_FILE={known} VERIF_REPO={repo} {verif}/check C20 quick")
-    ok1 = r.returncode == 0 and 'KNOWN-FINDING: property=C20' in r.stdout and 'VIOLATION' not in r.stdout
-    print(f"{'known-findings-path/listed':34s} C20 {'KNOWN-FINDING, exit 0' if ok1 else 'UNEXPECTED'} exit={r.returncode}")
+    r = sh(f"VERIF_SCENARIOS=1500 VERIF_KNOWN_FILE={known} VERIF_REPO={repo} {verif}/check C20 quick")
+    # the listed signatures are reported as KNOWN-FINDING and never as the VIOLATION; the same
+    # root cause may still surface under a signature that is not listed (list modes show it in
+    # many shapes) - that is reported, by design: a known entry never masks what it does not name
+    listed = ['cli-removed-more:marker[vec![]]', 'cli-lists-ready-more:marker[vec![]]', 'cli-lists-ready-more:items']
+    reported = [l for l in r.stdout.splitlines() if l.startswith('violated invariant')]
+    ok1 = 'KNOWN-FINDING: property=C20' in r.stdout and r.returncode in (0, 1) and not any(('signature ' + x + ')') in l for l in reported for x in listed)
+    print(f"{'known-findings-path/listed':34s} C20 {'KNOWN-FINDING printed, listed signatures not reported as violation' if ok1 else 'UNEXPECTED'} exit={r.returncode}")
+    if not ok1:
+        print('    ' + '\n    '.join(l[:300] for l in (r.stdout + r.stderr).splitlines() if not l.startswith('  raw') )[-3000:])
     open(path, 'w').write(orig.replace(f1_old, f1_new).replace('print!("{}", output);', 'println!("{}", output);'))
-    r = sh(f"VERIF_KNOWN_FILE={known} VERIF_REPO={repo} {verif}/check C20 quick")
+    r = sh(f"VERIF_SCENARIOS=1500 VERIF_KNOWN_FILE={known} VERIF_REPO={repo} {verif}/check C20 quick")
     ok2 = r.returncode == 1 and 'VIOLATION property=C20' in r.stdout and 'KNOWN-FINDING: property=C20' in r.stdout
     print(f"{'known-findings-path/other':34s} C20 {'KNOWN-FINDING + VIOLATION, exit 1' if ok2 else 'UNEXPECTED'} exit={r.returncode}")
     if not (ok1 and ok2):
